@@ -335,4 +335,4 @@ class PedReader:
             samples.add(trio.father)
             samples.add(trio.mother)
             samples.add(trio.child)
-        return list(samples)
+        return sorted(samples)
